@@ -38,6 +38,13 @@ pub struct Case {
     /// probe of known finding F17 (29 Feb directly after an earlier year)
     #[serde(default)]
     pub allow_f17: bool,
+    /// container header variant: gz FNAME/FCOMMENT/FEXTRA flags (bits 0..2); tar format (ustar/gnu/pax) and decoy members
+    #[serde(default = "hdr_default")]
+    pub hdr: u8,
+}
+
+fn hdr_default() -> u8 {
+    1
 }
 
 fn local_year_bounds(y: i64, off: i32) -> (i64, i64) {
@@ -53,7 +60,7 @@ impl Property for C11 {
         "C11"
     }
     fn rule(&self) -> String {
-        "case = year-less log (5 notations: `Mon dd`, `Mon  d`, full month name, <pri> prefix, bracketed) of 2..40 messages with non-decreasing true instants and gaps drawn from {0, seconds, hours, days, months up to < 360 days} so that 0..several year boundaries are crossed, written in the -t zone (15-minute steps); modification time placed anywhere inside the last message's local year incl. its first and last second; stored plain, .gz (mtime in the gzip header, decoy file mtime), .tar (member mtime, decoy file mtime), .bz2/.xz/.lz4 (file mtime); block size 64..65536; optional window. oracle: `-u -d %s.%9f|` prefix of message i == true instant t_i, messages in file order, window selection == filter over the true instants. One case in seven is shifted so that some message falls on a 29 February. Excluded by construction and counted: a 29 February message followed later by a message of a later year (project Issue #245). non-trivial = >=1 year boundary crossed or mtime within a day of a year edge or the zone shifts the year; distinct = hash(case).".into()
+        "case = year-less log (5 notations: `Mon dd`, `Mon  d`, full month name, <pri> prefix, bracketed) of 2..40 messages with non-decreasing true instants and gaps drawn from {0, seconds, hours, days, months up to < 360 days} so that 0..several year boundaries are crossed, written in the -t zone (15-minute steps); modification time placed anywhere inside the last message's local year incl. its first and last second; stored plain, .gz (mtime in the gzip header with every combination of the optional FNAME/FCOMMENT/FEXTRA fields, decoy file mtime), .tar (member mtime; ustar/gnu/pax, 0..2 decoy members before or after, long member names; decoy file mtime), .bz2/.xz/.lz4 (file mtime); block size 64..65536; optional window. oracle: `-u -d %s.%9f|` prefix of message i == true instant t_i, messages in file order, window selection == filter over the true instants. One case in seven is shifted so that some message falls on a 29 February. Excluded by construction and counted: a 29 February message followed later by a message of a later year (project Issue #245). non-trivial = >=1 year boundary crossed or mtime within a day of a year edge or the zone shifts the year; distinct = hash(case).".into()
     }
     fn assumptions(&self) -> Vec<String> {
         vec!["consecutive gaps are < 360 days (the statement's domain)".into(), "instants 1971..2098".into()]
@@ -65,7 +72,7 @@ impl Property for C11 {
         // Jun 14 2043 00:00:00, then Feb 29 2044 00:00:00 (gap 260 days), mtime inside 2044
         let start = dt::instant(2043, 6, 14, 0, 0, 0, 0, 0) / 1_000_000_000;
         let gap = (dt::instant(2044, 2, 29, 0, 0, 0, 0, 0) / 1_000_000_000 - start) as u32;
-        vec![("feb29-after-earlier-year".into(), Case { tmpl: 0, tz15: 0, start_local: start as i64, gaps: vec![gap], mtime_pos: 30000, cont: 0, bs: 65536, win: None, allow_f17: true })]
+        vec![("feb29-after-earlier-year".into(), Case { tmpl: 0, tz15: 0, start_local: start as i64, gaps: vec![gap], mtime_pos: 30000, cont: 0, bs: 65536, win: None, allow_f17: true, hdr: 1 })]
     }
     fn strategy(&self, tier: Tier) -> BoxedStrategy<Case> {
         let maxn = tier.pick(40usize, 120);
@@ -87,8 +94,9 @@ impl Property for C11 {
             prop_oneof![2 => 64u64..400, 2 => 400u64..9000, 1 => Just(65536u64)],
             win_spec_or_none(),
             prop::option::weighted(0.15, any::<u16>()),
+            any::<u8>(),
         )
-            .prop_map(|(tmpl, tz15, mut start_local, gaps, mtime_pos, cont, bs, win, leap)| {
+            .prop_map(|(tmpl, tz15, mut start_local, gaps, mtime_pos, cont, bs, win, leap, hdr)| {
                 // steer: one case in seven shifts the whole log so that message k falls on a 29 February
                 if let Some(k) = leap {
                     let k = (k as usize * (gaps.len() + 1)) >> 16;
@@ -98,7 +106,7 @@ impl Property for C11 {
                     let target = (dt::instant(y, 2, 29, c.h, c.mi, c.s, 0, 0) / 1_000_000_000) as i64;
                     start_local += target - lk;
                 }
-                Case { tmpl, tz15, start_local, gaps, mtime_pos, cont, bs, win, allow_f17: false }
+                Case { tmpl, tz15, start_local, gaps, mtime_pos, cont, bs, win, allow_f17: false, hdr }
             })
             .boxed()
     }
@@ -148,8 +156,8 @@ impl Property for C11 {
         let sc = Scratch::new();
         let codec = match case.cont % 6 {
             0 => Codec::Plain,
-            1 => Codec::Gz { level: 6, fname: true, fcomment: false, fextra: false, mtime: mtime as u32 },
-            2 => Codec::Tar { format: 0, pos: 0, decoys: 0, mtime: mtime as u32, longname: false },
+            1 => Codec::Gz { level: 6, fname: case.hdr & 1 != 0, fcomment: case.hdr & 2 != 0, fextra: case.hdr & 4 != 0, mtime: mtime as u32 },
+            2 => Codec::Tar { format: case.hdr % 3, pos: (case.hdr >> 4) % 3, decoys: (case.hdr >> 2) % 3, mtime: mtime as u32, longname: case.hdr & 0x80 != 0 },
             3 => Codec::Bz2 { level: 9 },
             4 => Codec::XzRs,
             _ => Codec::Lz4 { block: 0, linked: false, content_checksum: false, block_checksums: false, content_size: false },
